@@ -235,7 +235,7 @@ func (t *truth) live() (live map[int]bool, keptRef map[int]bool) {
 				if s < 0 {
 					break
 				}
-				if live[s] {
+				if live[s] && t.g.Nodes[s].IsManifest() {
 					keptRef[r] = true
 					t.closure(r, live)
 					changed = true
@@ -926,12 +926,9 @@ func genCase(r *common.Rand) (*dag.Graph, []op) {
 				okg = true // something can be pushed
 			}
 		}
-		for _, n := range g.Nodes {
-			// subjects are manifests (OCI referrers); registry.Referrers is undefined otherwise
-			if n.Subject >= 0 && !g.Nodes[n.Subject].IsManifest() {
-				okg = false
-			}
-		}
+		// subjects that are not manifests (a layer or config named as subject, stored or never
+		// pushed) are generated too: such a "referrer" has no manifest to refer to, so nothing
+		// keeps it alive in GC and nothing cascades to it in Delete
 		if okg {
 			break
 		}
